@@ -6,10 +6,12 @@ one call to the next OUTSIDE the arguments:
   * a write through a MODULE-LEVEL name (a name bound at the top level of the module - constant, dict, list, class, function - and not rebound locally in the
     function): `NAME[k] = v`, `NAME.attr = v`, `del NAME[k]`, `NAME += v`, `NAME.append / update / pop / clear / setdefault / extend / insert / remove / add / discard(...)`;
   * a MUTABLE DEFAULT ARGUMENT that the body writes (`def f(x, _seen={})` ... `_seen[k] = v`);
-  * a module-level name bound to a mutable container that a function HANDS OUT as it is (`x = x or DEFAULTS`, `return DEFAULTS`, `kwargs = DEFAULTS if kwargs is None else kwargs`):
-    recorded only when some function also writes through an alias of it - approximated here by flagging any function that both reads such a name bare
-    (not subscripted / called) and stores into a subscript / attribute of a local afterwards is too coarse, so this item is NOT flagged; the correspondence runs
-    (refused-call aftermath, pristine-process references) are what sees it.
+  * a module-level name bound to a MUTABLE CONTAINER (dict / list / set literal or constructor, comprehension, `np.zeros / array / empty / ones(...)`), or a mutable
+    default argument, that a function HANDS OUT as it is (`x = x or DEFAULTS`, `return DEFAULTS`, `kwargs = DEFAULTS if kwargs is None else kwargs`, `self.kw = kw`,
+    `f(DEFAULTS)`): the receiver can write through the alias, and the next call sees it. A use that cannot leak the object is not flagged: `NAME[k]` read,
+    `k in NAME`, `for x in NAME`, `NAME.get / copy / items / keys / values / index / count(...)`, `dict / list / set / tuple / len / sorted / copy / deepcopy / frozenset(NAME)`,
+    `{**NAME}`, `[*NAME]`, `NAME is None` / comparisons, truth tests (`if NAME`, `not NAME`). When the container's ELEMENTS are containers themselves (a dict of
+    default dicts), an element read `NAME[k]` / `NAME.get(k)` / iteration / shallow copy is judged by the same rules one level down (only `deepcopy` and `len` stay safe).
 
 Output: lean/BycycleModel/Generated/SlotsModuleState.lean, `def moduleStateWrites : List (String × String)` (function, what); `Props/C15.lean` proves it empty."""
 import ast, os
@@ -29,6 +31,68 @@ def _root(e):
         e = e.value
     return e.id if isinstance(e, ast.Name) else None
 
+SAFE_METHODS = {'get', 'copy', 'items', 'keys', 'values', 'index', 'count', 'tolist', 'astype', 'sum', 'mean', 'any', 'all', 'format', 'join'}
+SAFE_CALLS = {'dict', 'list', 'set', 'tuple', 'len', 'sorted', 'copy', 'deepcopy', 'frozenset', 'enumerate', 'zip', 'iter', 'str', 'repr', 'bool', 'isinstance', 'min', 'max', 'sum', 'any', 'all'}
+CONTAINER_CALLS = {'dict', 'list', 'set', 'defaultdict', 'OrderedDict', 'Counter', 'deque', 'bytearray'}
+ARRAY_CALLS = {'zeros', 'ones', 'empty', 'array', 'full', 'arange', 'zeros_like', 'ones_like', 'empty_like', 'DataFrame', 'Series'}
+
+def _is_container(v):
+    if isinstance(v, (ast.Dict, ast.List, ast.Set, ast.ListComp, ast.DictComp, ast.SetComp)): return True
+    if isinstance(v, ast.Call):
+        f = v.func
+        if isinstance(f, ast.Name) and f.id in CONTAINER_CALLS: return True
+        if isinstance(f, ast.Attribute) and f.attr in (CONTAINER_CALLS | ARRAY_CALLS): return True
+    return False
+
+def _nested(v):
+    """a container literal whose elements are containers themselves: a subscript READ then hands out a mutable object"""
+    if isinstance(v, ast.Dict): return any(_is_container(x) for x in v.values if x is not None)
+    if isinstance(v, (ast.List, ast.Set, ast.Tuple)): return any(_is_container(x) for x in v.elts)
+    if isinstance(v, (ast.ListComp, ast.SetComp)): return _is_container(v.elt)
+    if isinstance(v, ast.DictComp): return _is_container(v.value)
+    return isinstance(v, ast.Call)        # dict(...) / defaultdict(...): contents unknown
+
+def _handouts(fn, names, nested=()):
+    """bare uses of a name in `names` (not shadowed) in a position where the OBJECT itself (or, for a nested container, one of its elements) travels on"""
+    parent = {}
+    for n in ast.walk(fn):
+        for c in ast.iter_child_nodes(n): parent[c] = n
+    def safe(n, deep):
+        p = parent.get(n)
+        if isinstance(p, ast.Subscript) and p.value is n:                                 # NAME[k] (read; a store is caught by the write rule)
+            if isinstance(p.ctx, ast.Load) and deep: return safe(p, False)
+            return True
+        if isinstance(p, ast.Attribute) and p.value is n:
+            g = parent.get(p)
+            if isinstance(g, ast.Call) and g.func is p:
+                if p.attr == 'get' and deep: return safe(g, False)
+                if p.attr in SAFE_METHODS or p.attr in MUTATORS: return True               # mutators: caught by the write rule
+                return False
+            return True                                                                    # NAME.attr read
+        if isinstance(p, ast.Compare): return True
+        if isinstance(p, (ast.For, ast.comprehension)) and p.iter is n: return not deep
+        if isinstance(p, ast.Call) and n in p.args and ((isinstance(p.func, ast.Name) and p.func.id in SAFE_CALLS) or
+                                                         (isinstance(p.func, ast.Attribute) and p.func.attr in SAFE_CALLS)):
+            return not deep or (isinstance(p.func, ast.Name) and p.func.id in ('len', 'deepcopy', 'str', 'repr', 'bool', 'isinstance')) or \
+                   (isinstance(p.func, ast.Attribute) and p.func.attr == 'deepcopy')
+        if isinstance(p, ast.Dict) and n in p.values and p.keys[p.values.index(n)] is None: return not deep   # {**NAME}
+        if isinstance(p, ast.Starred): return not deep
+        if isinstance(p, ast.keyword) and p.arg is None: return not deep                  # f(**NAME): unpacked into fresh bindings
+        if isinstance(p, ast.UnaryOp) and isinstance(p.op, ast.Not): return True
+        if isinstance(p, (ast.If, ast.While, ast.IfExp)) and p.test is n: return True
+        if isinstance(p, ast.BoolOp):
+            # `x or NAME` / `NAME or x` yields the object itself: a hand-out, unless the BoolOp is itself only tested
+            g = parent.get(p)
+            if isinstance(g, (ast.If, ast.While, ast.IfExp)) and g.test is p: return True
+        return False
+    out = []
+    for n in ast.walk(fn):
+        if not (isinstance(n, ast.Name) and isinstance(n.ctx, ast.Load) and n.id in names): continue
+        if not safe(n, n.id in nested):
+            p = parent.get(n)
+            out.append(ast.unparse(parent.get(p, p) if isinstance(p, (ast.Subscript, ast.Attribute)) else p)[:60] if p is not None else n.id)
+    return out
+
 def _locals(fn):
     """names bound inside the function (parameters, assignment / loop / with / comprehension / import targets): they shadow module-level names"""
     names = set()
@@ -42,18 +106,58 @@ def _locals(fn):
         elif isinstance(n, (ast.FunctionDef, ast.ClassDef)) and n is not fn: names.add(n.name)
     return names
 
+def _module_containers():
+    """every bycycle module (not only the analysis modules): module-level names bound to containers - another module may import them by name"""
+    out = {}
+    root = os.path.join(REPO, 'bycycle')
+    for d, _, files in os.walk(root):
+        if os.sep + 'tests' in d: continue
+        for f in files:
+            if not f.endswith('.py'): continue
+            path = os.path.join(d, f)
+            mod = os.path.relpath(path, REPO)[:-3].replace(os.sep, '.')
+            if mod.endswith('.__init__'): mod = mod[:-9]
+            try: tree = ast.parse(open(path).read())
+            except SyntaxError: continue
+            names = {}
+            for n in tree.body:
+                if isinstance(n, (ast.Assign, ast.AnnAssign)) and getattr(n, 'value', None) is not None and _is_container(n.value):
+                    for t in (n.targets if isinstance(n, ast.Assign) else [n.target]):
+                        if isinstance(t, ast.Name): names[t.id] = _nested(n.value)
+            out[mod] = names
+    # re-exports through a package __init__ (`from .shape import DEFAULTS`)
+    return out
+
 def extract():
     found = []
+    containers = _module_containers()
     for m in MODULES:
         path = os.path.join(REPO, m)
         if not os.path.exists(path): continue
         tree = ast.parse(open(path).read())
         top = set()
+        top_mut = set()
+        top_nested = set()
         for n in tree.body:
+            if isinstance(n, ast.ImportFrom) and n.module and n.level == 0:
+                for al in n.names:
+                    src = containers.get(n.module, {})
+                    hit = al.name in src
+                    if not hit:                                   # a package re-export: look the name up in every submodule of the package
+                        for mod, names in containers.items():
+                            if mod.startswith(n.module + '.') and al.name in names: src, hit = names, True
+                    if hit:
+                        nm = al.asname or al.name
+                        top.add(nm); top_mut.add(nm)
+                        if src[al.name]: top_nested.add(nm)
             if isinstance(n, (ast.Assign, ast.AnnAssign, ast.AugAssign)):
                 for t in (n.targets if isinstance(n, ast.Assign) else [n.target]):
                     for x in ast.walk(t):
-                        if isinstance(x, ast.Name): top.add(x.id)
+                        if isinstance(x, ast.Name):
+                            top.add(x.id)
+                            if getattr(n, 'value', None) is not None and _is_container(n.value):
+                                top_mut.add(x.id)
+                                if _nested(n.value): top_nested.add(x.id)
             elif isinstance(n, (ast.FunctionDef, ast.ClassDef)):
                 top.add(n.name)
         funcs = []
@@ -79,8 +183,7 @@ def extract():
             for p, dv in zip(pos[len(pos) - len(a.defaults):], a.defaults): defaults[p.arg] = dv
             for p, dv in zip(a.kwonlyargs, a.kw_defaults):
                 if dv is not None: defaults[p.arg] = dv
-            mutable_defaults = {k for k, v in defaults.items() if isinstance(v, (ast.Dict, ast.List, ast.Set)) or
-                                (isinstance(v, ast.Call) and isinstance(v.func, ast.Name) and v.func.id in ('dict', 'list', 'set', 'defaultdict', 'OrderedDict'))}
+            mutable_defaults = {k for k, v in defaults.items() if _is_container(v)}
             rebound = {x.id for x in ast.walk(fn) if isinstance(x, ast.Name) and isinstance(x.ctx, ast.Store)}
             def flag(root, what):
                 if root is None: return
@@ -88,6 +191,10 @@ def extract():
                     found.append((name, '%s (module-level name %s)' % (what, root)))
                 elif root in mutable_defaults and root not in rebound:
                     found.append((name, '%s (mutable default argument %s)' % (what, root)))
+            for what in _handouts(fn, {x for x in top_mut if x not in loc}, top_nested):
+                found.append((name, 'hands out a module-level container: %s' % what))
+            for what in _handouts(fn, {x for x in mutable_defaults if x not in rebound}, {k for k in mutable_defaults if _nested(defaults[k])}):
+                found.append((name, 'hands out a mutable default argument: %s' % what))
             for n in ast.walk(fn):
                 if isinstance(n, ast.Global):
                     found.append((name, 'global ' + ', '.join(n.names)))
